@@ -14,7 +14,7 @@ open GV.Model.ValueConservation
 
 /-- certificates that exist before Conway -/
 def legacyCert : Cert → Bool
-  | .sreg | .sdereg | .sdeleg | .pret | .preg _ _ | .pregRetiring _ => true
+  | .sreg | .sdereg | .sdeleg | .pret | .preg _ _ | .pregRetiring _ | .genesis | .mir _ => true
   | _ => false
 
 /-- accepted by the rules modelled here: the conservation rule and, in Conway and
@@ -467,6 +467,7 @@ def namedCerts : List (String × Cert) :=
    ("StakeDelegationCertificate", .sdeleg), ("PoolRetirementCertificate", .pret),
    ("VoteDelegationCertificate", .vdeleg), ("PoolRegistrationCertificate", .preg true 1),
    ("PoolRegistrationCertificate", .preg false 1), ("PoolRegistrationCertificate", .pregRetiring 1),
+   ("GenesisKeyDelegationCertificate", .genesis), ("MoveInstantaneousRewardsCertificate", .mir 5),
    ("RegistrationCertificate", .reg 5), ("DeregistrationCertificate", .unreg 5 7),
    ("StakeRegistrationDelegationCertificate", .srd 5), ("VoteRegistrationDelegationCertificate", .vrd 5),
    ("StakeVoteRegistrationDelegationCertificate", .svrd 5), ("RegistrationDrepCertificate", .dreg 5),
@@ -515,6 +516,16 @@ theorem pool_states (kd pd : Nat) (id : Nat) :
     depositLegacy kd (.pregRetiring id) = 0 ∧ depositConway kd (.pregRetiring id) = 0 ∧
     newPoolIds [.pregRetiring id, .preg false id] = [] := by
   simp [countNew, depositLegacy, depositConway, newPoolIds]
+
+/-- MIR and genesis-delegation certificates leave the balance alone, whatever the amount
+    moved between the pots: adding one to a transaction changes neither the rule's verdict
+    inputs nor the formula's. -/
+theorem mir_genesis_neutral (kd dd a : Nat) :
+    refundLegacy kd (.mir a) = 0 ∧ depositLegacy kd (.mir a) = 0 ∧ specRefund kd (.mir a) = 0 ∧
+    specDepositNoPool kd dd (.mir a) = 0 ∧ refundLegacy kd .genesis = 0 ∧ depositLegacy kd .genesis = 0 ∧
+    specRefund kd .genesis = 0 ∧ specDepositNoPool kd dd .genesis = 0 ∧
+    countNew [] [.mir a, .genesis] = 0 ∧ newPoolIds [.mir a, .genesis] = [] := by
+  simp [refundLegacy, depositLegacy, specRefund, specDepositNoPool, countNew, newPoolIds]
 
 /-- certificate builders by Go type name: amount `a`, recorded deposit 7 -/
 def namedBuilders : List (String × (Nat → Cert)) :=
